@@ -22,13 +22,14 @@ type oracle struct {
 	due      map[uint64][]duty // obligations; cleared by every failed / skipped fetch
 	done     map[[3]uint64]bool
 	hist     []hev
-	fetchAt  map[uint64]int // history index of the most recent successful fetch per key
-	tainted  bool           // sync: a fetch could not be attributed to a period (clock in another period than the tick)
+	fetchAt  map[uint64]int  // history index of the most recent successful fetch per key
+	stale    map[uint64]bool // epoch/period whose fetched assignment was declared out of date by a notice and not re-fetched successfully since
+	tainted  bool            // sync: a fetch could not be attributed to a period (clock in another period than the tick)
 	lines    []string
 }
 
 func newOracle(kind string, spe, epp uint64) *oracle {
-	return &oracle{kind: kind, spe: spe, epp: epp, latest: map[uint64][]duty{}, older: map[uint64][]duty{}, due: map[uint64][]duty{}, done: map[[3]uint64]bool{}, fetchAt: map[uint64]int{}}
+	return &oracle{kind: kind, spe: spe, epp: epp, latest: map[uint64][]duty{}, older: map[uint64][]duty{}, due: map[uint64][]duty{}, done: map[[3]uint64]bool{}, fetchAt: map[uint64]int{}, stale: map[uint64]bool{}}
 }
 
 func (o *oracle) keyOfSlot(s uint64) uint64 {
@@ -95,6 +96,14 @@ func (o *oracle) sameDuty(x xduty, d duty) bool {
 	return o.kind == "sync" || x.slot == d.slot
 }
 
+// invalidate: a reorg (dependent root changed) or indices-change (validator set changed) notice whose slot lies in
+// epoch (period) k makes the fetched assignments of k and k+1 out of date (conservatively both, for every handler and
+// every notice kind: marking more than a handler resets only makes the oracle ask for less).
+func (o *oracle) invalidate(k uint64) {
+	o.stale[k] = true
+	o.stale[k+1] = true
+}
+
 type violation struct{ sig, detail string }
 
 // observe consumes the atoms of one op in call order and returns the violations of that op
@@ -103,8 +112,17 @@ func (o *oracle) observe(p op, atoms []atom) []violation {
 	switch p.name {
 	case "reorg":
 		o.hist = append(o.hist, hev{name: "reorg", slot: p.slot, prev: p.prev, cur: p.cur, key: o.keyOfSlot(p.slot)})
+		if p.prev || p.cur {
+			o.invalidate(o.keyOfSlot(p.slot))
+		}
 	case "indices":
 		o.hist = append(o.hist, hev{name: "indices", slot: p.clock, key: o.keyOfSlot(p.clock)})
+		// the validator set changed: every fetched assignment is out of date (the handlers reset the epoch of the
+		// NEXT TICK, whatever the clock showed when the notice was handled)
+		o.invalidate(o.keyOfSlot(p.clock))
+		for k := range o.due {
+			o.stale[k] = true
+		}
 	}
 	if p.name == "tick" && o.kind == "sync" && o.keyOfSlot(p.clock) != o.keyOfSlot(p.slot) {
 		o.tainted = true
@@ -140,8 +158,16 @@ func (o *oracle) observe(p op, atoms []atom) []violation {
 					delete(o.due, k)
 				}
 				o.fetchAt[k] = len(o.hist)
-			default: // fail, noidx, unscripted: the guarantee is void until the next successful fetch
-				o.due = map[uint64][]duty{}
+				delete(o.stale, k)
+			default:
+				// fail, noidx, unscripted. A failed fetch does NOT cancel an assignment that had been fetched
+				// successfully: it stays owed. Only exception: the assignment of this epoch (period) was declared
+				// out of date by a reorg / indices-change notice since it was fetched (the handlers then drop it and
+				// must re-fetch) and this is the failed re-fetch — then nothing is owed for it until the next success.
+				k := o.keyOfArg(a.arg)
+				if o.stale[k] {
+					delete(o.due, k)
+				}
 			}
 			continue
 		}
